@@ -10,11 +10,12 @@
 (* shortest path to the state) is printed with the result and the lastIndex  *)
 (* value spec/RegExpSpec.tla prescribes and replayed on a fresh runtime.     *)
 EXTENDS NumText, Json, TLC, SequencesExt, C10Str
-CONSTANTS OpenDev, Tier, MaxLen
+CONSTANTS OpenDev, C10Dev, Tier, MaxLen
 VARIABLES pat, li, hist
 
 S == INSTANCE RegExpSpec WITH Dev <- {}
 L == INSTANCE RegExpSpec WITH Dev <- OpenDev
+LI(dv) == INSTANCE RegExpSpec WITH Dev <- dv       \* the specification under an arbitrary set of deviations
 Thorough == Tier = "thorough"
 
 (* <<source, flags>> *)
@@ -69,6 +70,18 @@ Apply(d, X, a) ==
       [] a.op = "split" -> IF d THEN L!RxStrSplit(X, a.s, a.lim) ELSE S!RxStrSplit(X, a.s, a.lim)
       [] a.op = "setli" -> IF d THEN L!RxSetLastIndex(X, a.v) ELSE S!RxSetLastIndex(X, a.v)
 
+(* the same under an arbitrary set dv of deviations *)
+ApplyV(dv, X, a) ==
+    CASE a.op = "exec" -> (LET x == LI(dv)!RxExec(X, a.s) IN [R |-> x.R, v |-> x.v])
+      [] a.op = "test" -> LI(dv)!RxTest(X, a.s)
+      [] a.op = "match" -> LI(dv)!RxStrMatch(X, a.s)
+      [] a.op = "search" -> LI(dv)!RxStrSearch(X, a.s)
+      [] a.op = "replace" -> (LET x == LI(dv)!RxStrReplace(X, a.s, [k |-> "str", s |-> a.rep]) IN [R |-> x.R, v |-> x.v.a[1]])
+      [] a.op = "split" -> LI(dv)!RxStrSplit(X, a.s, a.lim)
+      [] a.op = "setli" -> LI(dv)!RxSetLastIndex(X, a.v)
+RECURSIVE AfterV(_, _, _, _)
+AfterV(dv, X, h, i) == IF i > Len(h) THEN X ELSE AfterV(dv, ApplyV(dv, X, h[i]).R, h, i + 1)
+
 (* the object after a history, under the deviations (the path may already diverge) *)
 RECURSIVE DevAfter(_, _, _)
 DevAfter(X, h, i) == IF i > Len(h) THEN X ELSE DevAfter(Apply(TRUE, X, h[i]).R, h, i + 1)
@@ -96,11 +109,17 @@ Step(a) ==
         rd == Apply(TRUE, DevAfter(Obj(TRUE, pat, IntV(0)), hist, 1), a)
         es == Out(rs)
         ed == Out(rd)
+        \* A repair may be in the tree while its finding is still listed as open: the outcome under "all open
+        \* deviations but one" is accepted too (the whole history is re-evaluated under each such set).  Only
+        \* computed where the deviations matter at all (ed # es).
+        alts == ({ed} \cup {Out(ApplyV(OpenDev \ {x}, AfterV(OpenDev \ {x}, [LI({})!RxNew(Pats[pat][1], Pats[pat][2]) EXCEPT !.li = IntV(0)], hist, 1), a)) :
+                               x \in C10Dev}) \ {es}
     IN  /\ li' = rs.R.li
         /\ hist' = Append(hist, a)
         /\ UNCHANGED pat
         /\ PrintT("VJSON " \o ToJson([c |-> [pat |-> pat, path |-> hist, step |-> a], js |-> Js(pat, hist, a), exp |-> es,
-                                        dev |-> IF ed = es THEN <<>> ELSE <<ed>>]))
+                                        dev |-> IF ed = es THEN <<>> ELSE IF Cardinality(alts) = 1 THEN <<ed>>
+                                                ELSE <<[t |-> "anyof", alts |-> SetToSeq(alts)]>>]))
 Next == Len(hist) < MaxLen /\ \E a \in Actions : Step(a)
 View == <<pat, li>>
 vars == <<pat, li, hist>>
